@@ -53,7 +53,7 @@ def kinds_2d(rng, m, n):
     ]
 
 
-def well_formed(name, two_d, data, b, p, out_dtype, max_iter, tol, budget_code):
+def well_formed(name, two_d, data, b, p, out_dtype, max_iter, tol, budget_code, exits=None):
     """list of defects of a returned pair"""
     probs = []
     d = np.asarray(data)
@@ -86,6 +86,12 @@ def well_formed(name, two_d, data, b, p, out_dtype, max_iter, tol, budget_code):
         if th.ndim == 1:
             if len(th) > max_iter + 1:
                 probs.append(f'tol_history has {len(th)} entries for max_iter={max_iter}')
+            # honest stop: a record shorter than the iteration budget must end below tol unless a documented early exit was taken
+            if budget_code is not None and tol is not None and exits == 0 and len(th):
+                budget = traj.budget_of(budget_code, max_iter)
+                if len(th) < budget and np.isfinite(th[-1]) and not th[-1] < tol:
+                    probs.append(f'tol_history stops after {len(th)} of {budget} allowed entries although its last value {th[-1]:.3g} is not below '
+                                 f'tol={tol:g} and no early exit was signalled')
         # nested-loop methods (brpls family, goldindec, jbcd) keep a 2-D record: one row per outer iteration; its bounds are
         # checked by C09's host-specific replay, not here
     return probs
@@ -181,15 +187,20 @@ def correspond(ctx):
             # every single parameter moved to a non-default value (optional code paths), on plain noisy data
             svs = M.single_variants(name, e, two_d, base=kw0)
             if not ctx.thorough and len(svs) > 8:
-                svs = [svs[i] for i in sorted(rng.choice(len(svs), 8, replace=False))]
+                # the loop-control and window-boundary variants are always kept, the others sampled
+                must = [kv for kv in svs if any(kv.get(k, kw0.get(k, e['params'].get(k))) != kw0.get(k, e['params'].get(k))
+                                                for k in ('tol', 'max_iter', 'smooth_half_window'))]
+                rest = [kv for kv in svs if kv not in must]
+                svs = must + [rest[i] for i in sorted(rng.choice(len(rest), min(len(rest), max(0, 10 - len(must))), replace=False))]
             for kwv in svs:
                 ds = int(rng.integers(0, 2 ** 31))
                 nv = int(rng.choice([25, 60]))
                 x, z, Y = variant_data(two_d, ds, nv)
                 if stack:
                     Y = np.array([Y, Y + 1])
+                rc = traj.RuleCounter()
                 try:
-                    with np.errstate(all='ignore'):
+                    with np.errstate(all='ignore'), rc:
                         fit = Baseline2D(x, z) if two_d else Baseline(x)
                         b, p = getattr(fit, name)(Y, **kwv)
                 except Exception as ex:
@@ -203,7 +214,12 @@ def correspond(ctx):
                 meta = {'method': name, 'two_d': two_d, 'kind': 'noisy', 'size': list(np.asarray(Y).shape), 'max_iter': kwv.get('max_iter'),
                         'kwargs': {k: v for k, v in kwv.items()}, 'data_seed': ds, 'n': nv}
                 mi_v = kwv.get('max_iter', e['params'].get('max_iter')) if has_mi else None
-                for pr in well_formed(name, two_d, Y, b, p, None, mi_v, kwv.get('tol', e['params'].get('tol')), golden.get(('2d.' if two_d else '') + name)):
+                tol_v = kwv.get('tol', e['params'].get('tol'))
+                tol_v = tol_v if isinstance(tol_v, (int, float)) and not isinstance(tol_v, bool) else None
+                # ria has a second, documented stop criterion (the integrated area overshoots), so its record may end above tol
+                honest = name not in traj.SKIP and name != 'ria' and ('2d.' if two_d else '') + name in golden
+                for pr in well_formed(name, two_d, Y, b, p, None, mi_v, tol_v, golden.get(('2d.' if two_d else '') + name) if honest else None,
+                                      exits=rc.exits if honest else None):
                     dis.append(Disagreement('c01.shape', f'{dim}:{name}:wellformed', f'{dim} {name} ({diffkeys}, noisy data): {pr}', meta, True))
                 if getattr(b, 'dtype', None) is not None and b.dtype.kind == 'f' and b.size and not np.all(np.isfinite(b)):
                     dis.append(Disagreement('c01.finite', f'{dim}:{name}:nonfinite', f'{dim} {name} ({diffkeys}, noisy data): the returned baseline contains '
